@@ -217,6 +217,8 @@ reg('ERET_T1', _eret_t1, x_eret)
 
 # ------------------------------------------------------------------------------------------------ SVC / SMC / BKPT / UDF
 def x_svc(M, o):
+    if 'svcalls' in M.s:
+        M.s['svcalls'] = tuple(M.s['svcalls']) + (o['imm32'] & 0xFFFF,)          # CallSupervisor(imm32<15:0>)
     if M.is_hyp() or (M.virt_ext() and not M.is_secure() and not M.privileged() and (M.s['hcr'] >> 27) & 1):
         cond = M.cur_cond
         M.write_hsr(0b010001, o['imm32'] & 0xFFFF if cond == 14 else 0, cond, True)
